@@ -143,7 +143,7 @@ func (ex *Exec) curPos() string {
 }
 
 func shortFile(f string) string {
-	f = strings.TrimPrefix(f, "/repo/")
+	f = strings.TrimPrefix(f, repoRoot+"/")
 	return f
 }
 
